@@ -137,11 +137,13 @@ def build(run):
                 if not thorough and na in ("real", "imag", "sum") and nb in ("real", "imag", "sum"):
                     continue
                 cplx = any("2+1j" in n.replace(" ", "") or n in ("conj", "real", "imag", "abs") or "lit[(2+1j)]" in n for n in (na, nb))
-                nm = f"{clsname}[{na},{nb}]/fi[{len(fia)},{len(fib)}]" + ("s" if fia and fia == fib else "")
+                nm = f"{clsname}[{na},{nb}]/fi[{len(fia)},{len(fib)}]" + ("s" if fia and fia == fib else "") + \
+                    ("(reverse creation order)" if fia and fib and len(fia) == len(fib) == 1 and fia[0].count() > fib[0].count() else "")
                 case(nm, (lambda a=a, b=b: ([a, b], lambda o: cls(o[0], o[1]))), spec,
                      lambda o: ((),) + fi_of(fip(o[0]), fip(o[1])), modes=("complex",) if cplx else ("real",))
     FIS_SAME = [(((), ()), ((), ())), (((I,), (2,)), ((I,), (2,)))]
-    FIS_MIX = [(((), ()), ((), ())), (((I,), (2,)), ((J,), (3,))), (((I,), (2,)), ((I,), (2,))), (((I, J), (2, 3)), ((J,), (3,)))]
+    FIS_MIX = [(((), ()), ((), ())), (((I,), (2,)), ((J,), (3,))), (((I,), (2,)), ((I,), (2,))), (((I, J), (2, 3)), ((J,), (3,))),
+               (((J,), (3,)), ((I,), (2,)))]          # the last one: the first operand's index was created after the second operand's, other extent
     binary("Sum", C.Sum, lambda w, o, c, e: N.add(D(w, o[0], c, e), D(w, o[1], c, e)), FIS_SAME)
     binary("Product", C.Product, lambda w, o, c, e: N.mul(D(w, o[0], (), e), D(w, o[1], (), e)), FIS_MIX)
 
@@ -355,6 +357,26 @@ def build(run):
     for nm, mkr, sh, fi in zero_cases:
         case(f"zero-folding/{nm}", (lambda mkr=mkr: ([], lambda o: mkr())), lambda w, o, c, e: 0,
              (lambda o, sh=sh, fi=fi: (sh,) + fi_of(fi)))
+    # compound tensor operators whose operands both carry a free index of their own (different extents; listed in either creation order): the free
+    # indices of the result are the union, each with ITS extent, and the value is the operator applied component-wise for every index value
+    def _fi_cases():
+        for order, (ia, da), (ib, db) in (("I,J", (I, 2), (J, 3)), ("J,I", (J, 3), (I, 2))):
+            a2, b2 = Opq("a", (2,), (ia,), (da,)), Opq("b", (2,), (ib,), (db,))
+            a3, b3 = Opq("a", (3,), (ia,), (da,)), Opq("b", (3,), (ib,), (db,))
+            A23 = Opq("A", (2, 3), (ia,), (da,))
+            both = lambda o: fi_of(fip(o[0]), fip(o[1]))        # noqa: E731
+            yield f"Outer[fi {order}]", [a2, b3], lambda o: C.Outer(o[0], o[1]), (lambda w, o, c, e: N.mul(D(w, o[0], (c[0],), e), D(w, o[1], (c[1],), e))), lambda o: ((2, 3),) + both(o)
+            yield f"Inner[fi {order}]", [a2, b2], lambda o: C.Inner(o[0], o[1]), (lambda w, o, c, e: _sum(2, lambda k: N.mul(D(w, o[0], (k,), e), D(w, o[1], (k,), e)))), lambda o: ((),) + both(o)
+            yield f"Dot[fi {order}]", [A23, b3], lambda o: C.Dot(o[0], o[1]), (lambda w, o, c, e: _sum(3, lambda k: N.mul(D(w, o[0], (c[0], k), e), D(w, o[1], (k,), e)))), lambda o: ((2,),) + both(o)
+            yield (f"Cross[fi {order}]", [a3, b3], lambda o: C.Cross(o[0], o[1]),
+                   (lambda w, o, c, e: (lambda p_, q_: N.sub(N.mul(D(w, o[0], (p_,), e), D(w, o[1], (q_,), e)), N.mul(D(w, o[0], (q_,), e), D(w, o[1], (p_,), e))))((c[0] + 1) % 3, (c[0] + 2) % 3)),
+                   lambda o: ((3,),) + both(o))
+            yield f"Outer[fi {order}, zero second]", [a2, C.Zero((3,), (ib.count(),), (db,))], lambda o: C.Outer(o[0], o[1]), (lambda w, o, c, e: 0), lambda o: ((2, 3),) + both(o)
+            yield f"Inner[fi {order}, zero first]", [C.Zero((2,), (ia.count(),), (da,)), b2], lambda o: C.Inner(o[0], o[1]), (lambda w, o, c, e: 0), lambda o: ((),) + both(o)
+            yield f"Dot[fi {order}, zero second]", [A23, C.Zero((3,), (ib.count(),), (db,))], lambda o: C.Dot(o[0], o[1]), (lambda w, o, c, e: 0), lambda o: ((2,),) + both(o)
+    for nm_, ops_, bld_, spec_, shf_ in _fi_cases():
+        case(nm_, (lambda ops_=ops_, bld_=bld_: (ops_, bld_)), spec_, shf_)
+
     # scalar shortcuts of inner/outer/dot
     a0, b0 = Opq("a"), Opq("b")
     case("Inner[scalars]", (lambda: ([a0, b0], lambda o: C.Inner(o[0], o[1]))), lambda w, o, c, e: N.mul(D(w, o[0]), N.conj(D(w, o[1]))),
@@ -492,6 +514,27 @@ def build(run):
     for nm, mkr, spec, sh in AT:
         case(f"tensor-api/{nm}", (lambda mkr=mkr: ([], lambda o: mkr())), (lambda w, o, c, e, spec=spec: spec(w, c, e)),
              (lambda o, sh=sh: (sh, (), ())), allow_refusal=False)
+
+    # ------------------------------------------------------------------ math functions of non-literal operands: whatever the constructor returns (the node, or a
+    # folded value when an operand is a zero / a literal) denotes the function of the operands for ALL values of the remaining operands
+    def mathfun_cases():
+        a_, b_ = Opq("a"), Opq("b")
+        unary = [(C.Sqrt, "sqrt"), (C.Exp, "exp"), (C.Ln, "ln"), (C.Cos, "cos"), (C.Sin, "sin"), (C.Tan, "tan"), (C.Cosh, "cosh"), (C.Sinh, "sinh"), (C.Tanh, "tanh"),
+                 (C.Acos, "acos"), (C.Asin, "asin"), (C.Atan, "atan"), (C.Erf, "erf")]
+        for cls, nm in unary:
+            yield f"{cls.__name__}[opq]", [a_], (lambda o, cls=cls: cls(o[0])), (lambda w, o, c, e, nm=nm: w.funcs.apply(nm, D(w, o[0])))
+        for k1, x1 in (("opq", a_), ("zero", C.Zero()), ("lit[2]", as_ufl(2)), ("lit[-1.5]", as_ufl(-1.5))):
+            for k2, x2 in (("opq", b_), ("zero", C.Zero()), ("lit[2]", as_ufl(2)), ("lit[-1.5]", as_ufl(-1.5))):
+                if "opq" not in (k1, k2):
+                    continue       # both literal: the numeric folding obligation below
+                yield f"Atan2[{k1},{k2}]", [x1, x2], (lambda o: C.Atan2(o[0], o[1])), (lambda w, o, c, e: w.funcs.apply("atan2", D(w, o[0]), D(w, o[1])))
+        for cls, kind in ((C.BesselJ, "J"), (C.BesselY, "Y"), (C.BesselI, "I"), (C.BesselK, "K")):
+            for nu in (0, 1, 2):
+                for k2, x2 in (("opq", b_), ("zero", C.Zero())):
+                    yield (f"{cls.__name__}[nu={nu},{k2}]", [as_ufl(nu), x2], (lambda o, cls=cls: cls(o[0], o[1])),
+                           (lambda w, o, c, e, kind=kind: w.funcs.apply("bessel_" + kind, D(w, o[0]), D(w, o[1]))))
+    for nm_, ops_, bld_, spec_ in mathfun_cases():
+        case("math/" + nm_, (lambda ops_=ops_, bld_=bld_: (ops_, bld_)), spec_, lambda o: ((), (), ()))
 
     # ------------------------------------------------------------------ literal / math-function folding (bounded, numeric)
     def folding():
